@@ -776,14 +776,14 @@ func C06() *check.Property {
 		Title:    "Unsubscribe cuts delivery; IsClosed, Wait and Collect tell the truth",
 		Patterns: CorePatterns,
 		Scope:    []string{ro},
-		Rules:    []check.Rule{ruleUnsubFlipsFirst(), ruleNoProducerLockInQueries(), ruleSelfUnsubscribe(), ruleWaitSignal(), ruleCollectWaits(), ruleFinalizerDiscipline(), ruleGatesOf(false), ruleWaitImplementors(), ruleCallbackReentrancy(), ruleNoEmitUnderTeardownLock(), ruleSubjectDelivers(), ruleTeardownDoesNotNotify(), ruleInnerTerminalBeforeDestination(), ruleRelockRevalidates()},
+		Rules:    []check.Rule{ruleUnsubFlipsFirst(), ruleNoProducerLockInQueries(), ruleSelfUnsubscribe(), ruleWaitSignal(), ruleCollectWaits(), ruleFinalizerDiscipline(), ruleGatesOf(false), ruleWaitImplementors(), ruleCallbackReentrancy(), ruleNoEmitUnderTeardownLock(), ruleSubjectDelivers(), ruleTeardownDoesNotNotify(), ruleInnerTerminalBeforeDestination(), ruleRelockRevalidates(), ruleLoopStopsAfterError(), ruleSequentialInnerGuard()},
 		Explanation: "Static ordering / who-may-lock checks over subscriber.go, subscription.go and observable.go. Unsubscribe closes the status word (won compare-and-swap) before running finalizers, so with the Next gate of C01 a notification whose emission starts after Unsubscribe returned " +
 			"is refused; the query methods and Unsubscribe never take the producer lock (callable from inside a callback); terminal notifications are delivered before the subscriber closes itself; Wait blocks only on a buffered channel signalled solely by a teardown it registers " +
 			"(run at once if already closed), so it returns iff the subscription is or gets closed; Collect waits on the collecting subscription before every return and returns exactly what its observer gathered; Unsubscribe is idempotent (FINALIZER-DISCIPLINE); no other type shortcuts Wait (WAIT-IMPLEMENTORS); no subject notifies an observer while holding a lock its subscriber teardown takes, so Unsubscribe from inside a callback cannot dead-lock (CALLBACK-REENTRANCY).",
 		NotDecided:  "the real-time ordering 'began afterwards' itself (follows from the compare-and-swap and the gate; argued, not model-checked); concurrent callers beyond the guarded-by discipline.",
 		Assumptions: []string{"sync/atomic, sync.Mutex and channel semantics"},
 		Floors:      map[string]int{"query_methods": 4, "gated_calls": 3, "field_accesses": 8, "subject_deliveries_checked": 3, "scs_with_locking_teardown": 8, "teardown_notifications": 1},
-		Controls:    map[string]string{"zz_verif_controls_c06.go": roControl(controlsC06 + controlsTeardownNotify + controlsInnerTerminal + controlsRelock)},
+		Controls:    map[string]string{"zz_verif_controls_c06.go": roControl(controlsC06 + controlsTeardownNotify + controlsInnerTerminal + controlsRelock + controlsLoopStops), "zz_verif_controls_c05.go": roControl(controlsC05)},
 	}
 }
 
